@@ -69,9 +69,23 @@ func (m *mon) causes(v reflect.Value, name string) []cause {
 	if !mOK {
 		cs = append(cs, diagMarshal(v, name)...)
 	}
-	d, derr, dpan := hcUnmarshal(rb, v.Type())
+	in := append([]byte{}, rb...) // the caller's receive buffer
+	d, derr, dpan := hcUnmarshal(in, v.Type())
 	if !(dpan == "" && derr == nil && equalNorm(v, d)) {
 		cs = append(cs, diagDecode(v, name)...)
+	} else {
+		// the caller owns its buffer: Unmarshal must leave it as it was (the same bytes decode again) and the
+		// decoded value must not change when the caller reuses the buffer afterwards
+		if !bytes.Equal(in, rb) {
+			cs = append(cs, cause{"unmarshal:input-modified", "Unmarshal changed the bytes it was given (decoding the same buffer again gives something else)", name,
+				map[string]interface{}{"input_after_unmarshal_hex": vf.Hex(in)}})
+		}
+		for i := range in {
+			in[i] = 0xEE
+		}
+		if !equalNorm(v, d) {
+			cs = append(cs, cause{"unmarshal:value-aliases-input", "the decoded value changes when the caller overwrites the buffer it passed to Unmarshal", name, map[string]interface{}{}})
+		}
 	}
 	if !mOK && pan == "" && err == nil {
 		// hc's own bytes differ from the reference: the literal round trip is a separate observation,
